@@ -432,16 +432,16 @@ func c13defs() []c13def {
 	N := c13NoTime
 	type shape struct{ start, interval, end int64 }
 	shapes := []shape{
-		{N, 10, N},   // R/PT10S
-		{20, 10, N},  // start in the future
-		{-15, 10, N}, // start in the past: the first due time (-5) has passed too
-		{N, 10, 25},  // end between the 2nd and 3rd due time
-		{N, 10, 20},  // end exactly on the 2nd due time
-		{20, 10, 45}, // start, interval and end together (no ISO 8601 syntax: hook only)
-		{20, 10, 40}, // end exactly on a due time
-		{20, 10, 30}, // R/start/end: the parser makes interval = end - start
-		{20, 10, 15}, // end before the start
-		{N, 10, c13Far},  // an end bound written as a far-future "never" date
+		{N, 10, N},      // R/PT10S
+		{20, 10, N},     // start in the future
+		{-15, 10, N},    // start in the past: the first due time (-5) has passed too
+		{N, 10, 25},     // end between the 2nd and 3rd due time
+		{N, 10, 20},     // end exactly on the 2nd due time
+		{20, 10, 45},    // start, interval and end together (no ISO 8601 syntax: hook only)
+		{20, 10, 40},    // end exactly on a due time
+		{20, 10, 30},    // R/start/end: the parser makes interval = end - start
+		{20, 10, 15},    // end before the start
+		{N, 10, c13Far}, // an end bound written as a far-future "never" date
 		{20, 10, c13Far},
 	}
 	for _, sh := range shapes {
